@@ -1,7 +1,7 @@
 (* C02 property theorems only.  Vocabulary: Model.v (executable model of the Go code) and Spec.v
    (ucfg/uaddr/uwp = union of changed keys, anyforced, rc k = count of reason k, lastpush = newest snapshot). *)
 From Coq Require Import List NArith Bool.
-From V Require Import C02.Model C02.Spec C02.Proofs C02.Proofs2.
+From V Require Import C02.Model C02.Spec C02.Proofs C02.Proofs2 C02.Proofs3 C02.Proofs4.
 Import ListNotations.
 Open Scope N_scope.
 
@@ -109,6 +109,74 @@ Proof.
 Qed.
 Print Assumptions C02_debounce_progress.
 
+(* Heap level (pointers and Go maps explicit).  CopyMerge only allocates: the result is a brand-new
+   cell and every cell / set / reason map that existed is bit-for-bit unchanged ... *)
+Theorem C02_copy_merge_frame : forall h ra rb h' r,
+  copy_merge_h h ra rb = (h', r) ->
+  r = length (cells h) /\
+  (forall i, (i < length (cells h))%nat -> hcell h' i = hcell h i) /\
+  (forall m, (m < length (hsets h))%nat -> hset h' m = hset h m) /\
+  (forall m, (m < length (hrmaps h))%nat -> hrmap h' m = hrmap h m).
+Proof. exact copy_merge_frame. Qed.
+Print Assumptions C02_copy_merge_frame.
+
+(* ... so no request that existed (e.g. the one shared with every other proxy) changes its deep value. *)
+Theorem C02_copy_merge_values_untouched : forall h ra rb h' r i,
+  copy_merge_h h ra rb = (h', r) ->
+  (i < length (cells h))%nat -> wf_cell h (hcell h i) -> deref h' i = deref h i.
+Proof. exact copy_merge_values_untouched. Qed.
+Print Assumptions C02_copy_merge_values_untouched.
+
+(* Merge writes only its receiver: no other cell changes, no cell appears or disappears, and the only maps
+   written are those the receiver's cell referenced before the call (or one fresh reason map). *)
+Theorem C02_merge_frame : forall h ra rb,
+  let h' := merge_h h ra rb in
+  let ca := hcell h ra in
+  (forall i, i <> ra -> hcell h' i = hcell h i) /\
+  length (cells h') = length (cells h) /\
+  (forall m, k_cfg ca <> Some m -> k_addr ca <> Some m -> k_wp ca <> Some m -> hset h' m = hset h m) /\
+  (forall m, (m < length (hrmaps h))%nat -> k_reason ca <> Some m -> hrmap h' m = hrmap h m).
+Proof. exact merge_frame. Qed.
+Print Assumptions C02_merge_frame.
+
+(* doSendPushes, every schedule (enqueues, token acquisition, dequeues, hand-over, client completion,
+   stream closure at any moment, drops, stop, queue shutdown): the semaphore holds exactly one token per
+   event that is still parked or handed (+ at most the loop's own) and never more than its capacity; a
+   connection is in [processing] exactly while it has such an event (MarkDone ran for every finished
+   event, however it finished); the queue invariant holds, so C02_fifo_service / C02_queue_no_loss keep
+   applying to every other client. *)
+Theorem C02_done_always : forall cap is,
+  let s := srun cap is in
+  qinv (s_q s) /\
+  (forall c, alookup c (processing (s_q s)) <> None <->
+             (alookup c (s_parked s) <> None \/ alookup c (s_handed s) <> None)) /\
+  (s_loop s = 0%nat -> s_tokens s = out_events s) /\
+  (s_loop s = 1%nat -> s_tokens s = S (out_events s)) /\
+  (out_events s <= s_tokens s <= S (out_events s))%nat /\
+  (s_tokens s <= s_cap s)%nat.
+Proof.
+  intros cap is. cbn zeta.
+  destruct (sender_invariant cap is) as (A & _ & _ & B & _ & C & D & E & F & _).
+  split; [exact A|]. split; [exact B|]. split; [exact C|]. split; [exact D|]. split; [exact E|exact F].
+Qed.
+Print Assumptions C02_done_always.
+
+(* after every client has finished or gone away nothing is held: at most the loop's own token is left
+   and nobody is stuck in [processing] *)
+Theorem C02_all_released : forall cap is,
+  let s := srun cap is in
+  s_parked s = [] -> s_handed s = [] ->
+  (s_tokens s <= 1)%nat /\ (forall c, alookup c (processing (s_q s)) = None).
+Proof.
+  intros cap is. cbn zeta. intros HP HH.
+  destruct (sender_invariant cap is) as (_ & _ & _ & B & _ & _ & _ & E & _).
+  unfold out_events in E. rewrite HP, HH in *. cbn in E. split; [apply E|].
+  intros c. destruct (alookup c (processing (s_q (srun cap is)))) eqn:X; [|reflexivity].
+  exfalso. assert (Y : alookup c (processing (s_q (srun cap is))) <> None) by congruence.
+  apply B in Y. cbn in Y. destruct Y as [Y|Y]; congruence.
+Qed.
+Print Assumptions C02_all_released.
+
 (* hypotheses are satisfiable / the statements are not vacuous *)
 Example C02_ex_queue_merge :
   let a := mkReq (Some 1) None None (Some [(2, 1)]) (Some 1) 1 false in
@@ -122,4 +190,10 @@ Example C02_ex_debounce :
   let b := mkReq (Some 16) None None (Some [(2, 1)]) None 2 true in
   snd (drun (mkDopts true 7) dst_init [Recv a; Tick false; Recv b; Tick true]) =
   [Push (mkReq (Some 24) None None (Some [(0, 1); (2, 1)]) None 1 true) 2].
+Proof. vm_compute. reflexivity. Qed.
+
+Example C02_ex_sender_close_while_parked :
+  let r := mkReq (Some 1) None None None (Some 1) 1 false in
+  let s := srun 1 [SEnq 5 r; SAcquire; STake; SClose 5; SDrop 5; SEnq 6 r; SAcquire; STake; SHand 6] in
+  (s_tokens s, s_done_calls s, alookup 6 (s_handed s)) = (1%nat, [5], Some (Some r)).
 Proof. vm_compute. reflexivity. Qed.
